@@ -373,7 +373,27 @@ func frameMutations(b *baseStream) []mutation {
 				return
 			}
 			seen[nb] = true
-			out = append(out, mutation{fmt.Sprintf("blk%d.reframe=%dbits", blk.ID, nb), reframe(b, bi, nb)})
+			d := reframe(b, bi, nb)
+			out = append(out, mutation{fmt.Sprintf("blk%d.reframe=%dbits", blk.ID, nb), d})
+			// the short frame with the first word of the codec data (the size / offset fields of the transform headers when the
+			// entropy codec is NONE) forged to zero, to one and to the largest value
+			if nb >= blk.HeadBits+32 && (nb-blk.HeadBits)%8 == 0 && b.w.Entropy == "NONE" && b.w.Transform != "NONE" {
+				at := blk.Start + 5 + blk.LW + blk.HeadBits
+				// (with entropy NONE the length field of the frame head counts the bytes that follow: keep the frame consistent)
+				plen := blk.Start + 5 + blk.LW + (blk.OffPreLen - blk.Payload)
+				for _, v := range []uint64{0, 0xFFFFFFFF, 1} {
+					if v == 1 && bi > 0 {
+						continue
+					}
+					g := clone(d)
+					kzfmt.SetBits(g, at, 32, v)
+					kzfmt.SetBits(g, plen, 8*blk.DataSize, uint64((nb-blk.HeadBits)/8))
+					out = append(out, mutation{fmt.Sprintf("blk%d.reframe=%dbits word0=%#x consistent", blk.ID, nb, v), g})
+				}
+				g := clone(d)
+				kzfmt.SetBits(g, plen, 8*blk.DataSize, uint64((nb-blk.HeadBits)/8))
+				out = append(out, mutation{fmt.Sprintf("blk%d.reframe=%dbits consistent", blk.ID, nb), g})
+			}
 		}
 		for k := 1; k <= blk.HeadBits/8+20; k++ {
 			try(8 * k)
@@ -577,8 +597,9 @@ func frameBases(seed int64) []*baseStream {
 		}
 	}
 	for _, tf := range transformNames[1:] {
-		mk(tf, "NONE", []uint{0, 32, 64}[k%3], k)
-		k++
+		mk(tf, "NONE", 0, k)
+		mk(tf, "NONE", []uint{32, 64}[k%2], k+1)
+		k += 2
 	}
 	return out
 }
